@@ -39,6 +39,9 @@ CASE_TIMEOUT = {'quick': 240, 'thorough': 600}
 DAY = 86400
 
 
+# appended to RULE in the evidence (vlib/runner.py)
+RULE_ADDENDUM = 'Added in rounds 4-5: once-only clock-time controls (also exactly on the start clock time), daily sim-time controls, several simple controls on different targets at one off-grid instant (EPANET cross-check skipped for API-only controls).'
+
 def n_cases(tier):
     return 300 if tier == 'quick' else 20000
 
